@@ -216,7 +216,7 @@ def setup_fake(d, f, vcs):
         fake.fail_match(fails)
     if vcs == "git":
         fake.set_out("status", f" M {extras(f)['dirty_file']}\n" if f["dirty"] else "")
-        fake.set_out("branch", "* main 0123abc [origin/main] msg\n" if f["remote"] else "* main 0123abc msg\n")
+        fake.set_out("branch", "*origin\n feature\n" if f["remote"] else "*\n feature\n")
         if f["remote"]:
             fake.set_out("remote", "git@example.org:x/y.git\n")
         fake.set_out("tag-list", "0.9.0\n1.0.0\nnot-a-version\n" + ("1.2.5\n" if extras(f)["newer_tag"] else ""))
